@@ -26,6 +26,9 @@ import io
 import itertools
 import json
 import random
+import re
+import shutil
+import uuid
 from concurrent.futures import ThreadPoolExecutor
 from decimal import Decimal
 
@@ -36,8 +39,10 @@ from ..env import stubs
 ASSUMPTIONS = [
     "oracle = docs/source/guide/formatting.rst 'Render Format Specification' + the 'Format "
     "Specification' sections of the KittyImage / ITerm2Image docstrings, transcribed in "
-    "specs/FormatSpec.tla; width/height: a digit string, absent or zero = terminal-relative "
-    "default (terminal width; terminal height - 2)",
+    "specs/FormatSpec.tla; width/height: a digit string; absent = terminal-relative default "
+    "(terminal width; terminal height - 2); zero = relative to the terminal with offset 0 as "
+    "draw() documents for non-positive values (so '.0' denotes the full terminal height, not "
+    "height - 2; for the width absent and zero coincide)",
     "'+' must be followed by a non-empty style specification; BlockImage defines none, so any "
     "'+...' is rejected for block",
     "documented errors: ValueError for an ill-formed specifier and for a z-index outside the "
@@ -403,9 +408,9 @@ class Real:
                 with contextlib.redirect_stdout(buf):
                     img.draw(h, w, v, ht, alpha, **dict(sa))
                 got = buf.getvalue()
-                trailer = "\x1b[0m\n"  # draw's own epilogue: SGR reset + newline
                 dk = "out"
-                dd = _digest(got[: -len(trailer)]) if got.endswith(trailer) else "no-trailer"
+                m = _TRAILER.search(got)  # draw's own epilogue: SGR reset + newline
+                dd = _digest(got[: m.start()]) if m else "no-trailer"
             except Exception as e:
                 dk, dd = "raise", type(e).__name__
             self.unchanged(img)
@@ -447,6 +452,9 @@ class Real:
         return ["ok", same, self._al(h), "~", "~", self._al(v), "~", "~", ak, av, m, "~", x, c, extra]
 
 
+_TRAILER = re.compile(r"\x1b\[0?m\n\Z")
+
+
 def _digest(text: str) -> str:
     return hashlib.blake2b(text.encode("utf-8", "surrogatepass"), digest_size=8).hexdigest()
 
@@ -456,28 +464,22 @@ def observe(real: Real, s: str, with_draw: bool):
     return [c, real.fmt(s, raw, with_draw), real.iterator(s), real.urwid(s)]
 
 
-def group(per_style: list[list]) -> list:
-    """Lossless grouping of identical observations: [[styles, [[entries, obs], ...]], ...]."""
-    packed = []
+def intern(per_style: list[list]) -> tuple[list, list]:
+    """Lossless: the distinct observations `u` and the style x entry matrix `x` of (1-based)
+    indices into it."""
+    u: list = []
+    x = []
     for obs4 in per_style:
-        g: list[list] = []
-        for ei, o in enumerate(obs4, 1):
-            for e in g:
-                if e[1] == o:
-                    e[0].append(ei)
-                    break
-            else:
-                g.append([[ei], o])
-        packed.append(g)
-    out: list[list] = []
-    for si, g in enumerate(packed, 1):
-        for e in out:
-            if e[1] == g:
-                e[0].append(si)
-                break
-        else:
-            out.append([[si], g])
-    return out
+        row = []
+        for o in obs4:
+            try:
+                k = u.index(o)
+            except ValueError:
+                u.append(o)
+                k = len(u) - 1
+            row.append(k + 1)
+        x.append(row)
+    return u, x
 
 
 # ----------------------------------------------------------------------------------------
@@ -492,8 +494,8 @@ def run_models(rep: Report):
     ]
     ex = ThreadPoolExecutor(max_workers=4)
     futs = [
-        (name, cfg, ex.submit(tlc.run, "MC_FormatSpec", cfg, workers=4, timeout=840,
-                              coverage=cov, deadlock=False))
+        (name, cfg, ex.submit(tlc.run, "MC_FormatSpec", cfg, workers=2, timeout=840,
+                              coverage=cov, deadlock=False, jvm=JVM))
         for name, cfg, cov in jobs
     ]
 
@@ -514,8 +516,6 @@ def run_models(rep: Report):
                 )
             if res.distinct < 100:
                 raise tlc.MachineryError(f"{cfg}: only {res.distinct} states explored")
-            if name in ("coverage", "hex"):
-                pass
             if name == "coverage":
                 missing = [a for a in MC_ACTIONS if res.coverage.get(a, (0, 0))[1] == 0]
                 if missing:
@@ -524,6 +524,41 @@ def run_models(rep: Report):
         ex.shutdown()
 
     return join
+
+
+JVM = ["-Xmx3g", "-XX:ParallelGCThreads=2", "-XX:CICompilerCount=2"]
+
+
+def validate(traces: list, batch: int, parallel: int) -> tuple[list[dict], int, int]:
+    """tlc.validate_traces with lean JVMs (many short runs: GC / JIT threads kept few)."""
+    rundir = tlc.OUT / "traces" / f"c19-{uuid.uuid4().hex[:8]}"
+    rundir.mkdir(parents=True, exist_ok=True)
+    jobs, spans = [], []
+    for i in range(0, len(traces), batch):
+        part = traces[i : i + batch]
+        f = tlc.write_json(rundir / f"b{i}.json", part)
+        spans.append((i, len(part)))
+        jobs.append(dict(spec="Trace_FormatSpec", cfg="Trace_FormatSpec.cfg", workers=2, timeout=840,
+                         env={"TRACE_FILE": str(f)}, deadlock=False, jvm=JVM))
+    try:
+        results = tlc.run_many(jobs, parallel=parallel)
+    finally:
+        shutil.rmtree(rundir, ignore_errors=True)
+    verdicts: list = [None] * len(traces)
+    st = tr = 0
+    for (base, n), res in zip(spans, results):
+        if res.violated:
+            raise tlc.MachineryError(f"Trace_FormatSpec itself failed ({res.violated}):\n{res.error_text[:3000]}")
+        st += res.distinct
+        tr += res.generated
+        for v in res.tagged("VERDICT"):
+            if not 1 <= v["tid"] <= n:
+                raise tlc.MachineryError(f"verdict with tid {v['tid']} outside batch of {n}")
+            verdicts[base + v["tid"] - 1] = v
+    missing = [i for i, v in enumerate(verdicts) if v is None]
+    if missing:
+        raise tlc.MachineryError(f"{len(missing)} traces got no verdict (first: #{missing[0]})")
+    return verdicts, st, tr
 
 
 def main(rep: Report, replay: dict | None) -> None:
@@ -535,57 +570,29 @@ def main(rep: Report, replay: dict | None) -> None:
         "x 3 render styles; traces = strings (one TLC verdict each); distinct_nontrivial = distinct "
         "(style, string) pairs that the documented grammar accepts"
     )
+    quick = rep.tier == "quick"
     join_models = run_models(rep) if not replay else (lambda: None)
 
     stubs.install()
     tmp = imgs.tmpdir("c19")
     gif = imgs.make_animation(random.Random(1), tmp / "anim.gif", 2, 2, 4)
-    reals = {}
-    for st in STYLES:
-        reals[st] = Real(st, str(gif))
+    reals = {st: Real(st, str(gif)) for st in STYLES}
 
     if replay:
         chunks = iter([("replay", [replay["scenario"]["s"]])])
     else:
-        chunks = input_chunks(rep, 60000 if rep.tier == "quick" else 150000)
+        chunks = input_chunks(rep, 30000 if quick else 120000)
 
-    draw_budget = {"quick": 6000, "thorough": 120000}[rep.tier]
+    draw_budget = 8000 if quick else 150000
     drng = random.Random(rep.seed * 31 + 7)
     stats = {"accepted_by_spec": [0, 0, 0], "real_calls": 0, "draw_compared": 0, "kinds": {}}
-    for kind, strings in chunks:
-        per_string: list[list] = [[] for _ in strings]
-        for st in STYLES:
-            real = reals[st]
-            stubs.set_identity(IDENT[st])
-            stubs.set_term(size=TERM_A, cell=(8, 16) if st != "block" else None)
-            real.prime()
-            for i, s in enumerate(strings):
-                # draw() comparison: every accepted directed / replayed string, a seeded sample
-                # of the others (it is the slow part)
-                wd = kind in ("directed", "replay") or (draw_budget > 0 and drng.random() < 0.5)
-                o = observe(real, s, wd)
-                if o[1][0] == "ok" and o[1][3] != "~":
-                    draw_budget -= 1
-                    stats["draw_compared"] += 1
-                per_string[i].append(o)
-            stats["real_calls"] += 4 * len(strings)
-        traces = [
-            {"s": list(s), "t": [*TERM_A, *TERM_B], "o": group(per_string[i])}
-            for i, s in enumerate(strings)
-        ]
-        del per_string
-        verdicts, nst, ntr = tlc.validate_traces(
-            "Trace_FormatSpec", "Trace_FormatSpec.cfg", traces,
-            batch=max(500, min(8000, len(traces) // 8 + 1)), parallel=8, workers=2,
-            timeout=840, name="c19",
-        )
+
+    def digest_verdicts(kind, strings, traces, verdicts, nst, ntr):
         rep.states += nst
         rep.transitions += ntr
         rep.traces_validated += len(traces)
         stats["kinds"][kind] = stats["kinds"].get(kind, 0) + len(traces)
         for s, tr, v in zip(strings, traces, verdicts):
-            if v["n"] != 12:
-                raise tlc.MachineryError(f"trace for {s!r} carries {v['n']} observations, not 12")
             for si in v["sentence"]:
                 stats["accepted_by_spec"][si - 1] += 1
                 rep.distinct.add((si, s))
@@ -602,15 +609,52 @@ def main(rep: Report, replay: dict | None) -> None:
                 sig,
                 f"specifier {s!r}, render style {v['style']}, {entry}: {v['verdict']}\n"
                 f"documented grammar (FormatSpec.tla) expects {v['exp']!r}, the code gave {v['got']!r}\n"
-                f"observations: {json.dumps(tr['o'])[:600]}",
+                f"observations (block, kitty, iterm2 x _check_format_spec, format, ImageIterator, "
+                f"UrwidImage): x={tr['x']} u={json.dumps(tr['u'])[:500]}",
                 {"s": s, "style": v["style"], "entry": entry, "kind": kind},
             )
         if len(rep.samples) < 5:
             for s, tr in zip(strings, traces):
-                if any(g[1][0][1][0] == "ok" for g in tr["o"]) and len(s) > 2:
-                    rep.sample({"s": s, "o": tr["o"]})
+                if any(o[0] == "ok" for o in tr["u"]) and len(s) > 2:
+                    rep.sample({"s": s, "u": tr["u"], "x": tr["x"]})
                     break
-        del traces
+
+    pool = ThreadPoolExecutor(max_workers=1)  # TLC validates chunk k while chunk k+1 is observed
+    pending = []
+    try:
+        for kind, strings in chunks:
+            per_string: list[list] = [[] for _ in strings]
+            for st in STYLES:
+                real = reals[st]
+                stubs.set_identity(IDENT[st])
+                stubs.set_term(size=TERM_A, cell=(8, 16) if st != "block" else None)
+                real.prime()
+                for i, s in enumerate(strings):
+                    # draw() comparison: every accepted directed / replayed string, a seeded
+                    # sample of the others (it is the slow part)
+                    wd = kind in ("directed", "replay") or (draw_budget > 0 and drng.random() < 0.5)
+                    o = observe(real, s, wd)
+                    if o[1][0] == "ok" and o[1][3] != "~":
+                        draw_budget -= 1
+                        stats["draw_compared"] += 1
+                    per_string[i].append(o)
+                stats["real_calls"] += 4 * len(strings)
+            traces = []
+            for i, s in enumerate(strings):
+                u, x = intern(per_string[i])
+                traces.append({"s": list(s), "t": [*TERM_A, *TERM_B], "u": u, "x": x})
+            del per_string
+            batch = max(500, min(8000 if quick else 20000, len(traces) // 8 + 1))
+            pending.append((kind, strings, traces, pool.submit(validate, traces, batch, 8)))
+            while len(pending) > 1:
+                k, ss, trs, fut = pending.pop(0)
+                digest_verdicts(k, ss, trs, *fut.result())
+        while pending:
+            k, ss, trs, fut = pending.pop(0)
+            digest_verdicts(k, ss, trs, *fut.result())
+    finally:
+        pool.shutdown(wait=True, cancel_futures=True)
+
     rep.evaluations = stats["real_calls"]
     rep.extra["accepted_by_spec"] = dict(zip(STYLES, stats["accepted_by_spec"]))
     rep.extra["draw_compared"] = stats["draw_compared"]
